@@ -277,6 +277,28 @@ def coq_case_vec(cfg, res):
     return "(run_vec %d %d %s %s %s %d %d %s [%s])" % (fuel, N, fhex(fs), fhex(olap), fhex(bmin), Lmin, Kdes, fhex(logfact), "; ".join(fhex(x) for x in grid))
 
 
+def coq_case_new(cfg, res):
+    """FloatA model of new_ltf_plan; x**0.5 recomputed per emitted frequency, np.exp / np.log taken from the recording proxy."""
+    N, fs, olap, bmin, Lmin, Jdes, Kdes = (cfg[k] for k in ("N", "fs", "olap", "bmin", "Lmin", "Jdes", "Kdes"))
+    logfact = (N / 2) ** (1 / Jdes) - 1
+    xov = 1 - olap; fresmin = fs / N; freslim = fresmin * (1 + xov * (Kdes - 1))
+    fl = list(res["plan"]["f"]) if res["ok"] else []
+    tp, seen = [], set()
+    for fi in fl:
+        arg = freslim * (float(fi) * logfact)
+        if arg not in seen and arg >= 0:
+            seen.add(arg); tp.append((arg, arg ** 0.5))
+    def tbl(name):
+        out, sn = [], set()
+        for a, o in res["rec"].get(name, []):
+            k = float(a[0])
+            if k not in sn and k == k:
+                sn.add(k); out.append((k, float(o)))
+        return out
+    fmt = lambda t: "[" + "; ".join("(%s, %s)" % (fhex(a), fhex(b)) for a, b in t) + "]"
+    return "(run_new %d %d %s %s %s %d %d %s %d %s %s %s)" % (len(fl) + 3, N, fhex(fs), fhex(olap), fhex(bmin), Lmin, Kdes, fhex(logfact), Jdes, fmt(tp), fmt(tbl("exp")), fmt(tbl("log")))
+
+
 HEADER = "From Coq Require Import ZArith List PrimFloat.\nFrom SK Require Import Arith Sched SchedRun.\nImport ListNotations.\nOpen Scope Z_scope.\nOpen Scope float_scope.\n"
 
 
